@@ -1026,7 +1026,7 @@ CYCLE_BODIES = {
 '''),
 }
 
-CHECK_ITERS = (4, 10, 100, 1000, 5000, 20000)
+CHECK_ITERS = (4, 10, 100, 300, 1000, 5000, 20000)
 
 
 def checkpoints(n):
@@ -2248,3 +2248,158 @@ func mkHoldG(i int) HoldG {
 }
 LOOP_BODIES.update(LOOP_BODIES6)
 KNOWN_CAUSE["loop:field_then_index_of_array_in_result"] = "array-value-IndexOf-helper-keeps-a-count"
+
+
+# ------------------------------------------------------------------------------------------------
+# seventh batch: (a) data parked in package-level variables and DROPPED again inside the iteration (nil / "" / fresh
+# value): nothing of it is referenced at the checkpoint, so it is not "retained by design"; (b) bursts of frees of one
+# size class that cross the capacity (64) of the allocator's fixed-size free lists — the allocated-block count stays flat
+# there, only the heap size shows a loss.
+
+LOOP_BODIES7 = {
+    "globals_dropped_with_nil": ('''
+var gdCur *Node
+var gdLabel string
+var gdSl I32s
+var gdStrs Strs
+var gdAny interface{}
+var gdFn func() int32
+var gdI I
+''', '''
+	gdCur = &Node{int32(i), "n" + itoa(i), nil}
+	gdCur.next = &Node{1, "m", nil}
+	gdLabel = "l" + gdCur.name
+	gdSl = []int32{int32(i), 2, 3}
+	gdStrs = []string{"a" + itoa(i), gdLabel}
+	gdAny = &S{int32(i), "any" + itoa(i)}
+	loc := "cap" + itoa(i)
+	gdFn = func() int32 { return int32(len(loc)) }
+	gdI = &PA{int32(i), "pa" + itoa(i)}
+	n := int32(len(gdLabel)+len(gdCur.next.name)+len(gdStrs)) + gdSl[0] + gdAny.(*S).a + gdFn() + gdI.M()
+	gdCur = nil
+	gdLabel = ""
+	gdSl = nil
+	gdStrs = nil
+	gdAny = nil
+	gdFn = nil
+	gdI = nil
+	return n
+'''),
+    "global_struct_fields_dropped": ('''
+type ArrGF [2]string
+
+type HoldGF struct {
+	w    W
+	next *Node
+	arr  ArrGF
+	tags Strs
+}
+
+var gfHold HoldGF
+var gfW W
+var gfArr ArrGF
+''', '''
+	gfW.s = []int32{int32(i), 1}
+	gfW.name = "w" + itoa(i)
+	gfW.p = &S{int32(i), "p" + itoa(i)}
+	gfHold.w = gfW
+	gfHold.next = &Node{int32(i), "hn" + itoa(i), nil}
+	gfHold.arr[0] = "arr" + itoa(i)
+	gfHold.arr[1] = gfHold.arr[0] + "!"
+	gfHold.tags = append(gfHold.tags, "t"+itoa(i))
+	gfArr[1] = "ga" + itoa(i)
+	n := gfHold.w.s[0] + int32(len(gfHold.arr[1])+len(gfHold.tags)+len(gfArr[1])) + gfHold.next.v
+	gfW.s = nil
+	gfW.name = ""
+	gfW.p = nil
+	gfHold.w.s = nil
+	gfHold.w.name = ""
+	gfHold.w.p = nil
+	gfHold.next = nil
+	gfHold.arr[0] = ""
+	gfHold.arr[1] = ""
+	gfHold.tags = nil
+	gfArr[1] = ""
+	return n
+'''),
+    "globals_overwritten_then_cleared": ('''
+var goP *S
+var goS string
+var goSl I32s
+''', '''
+	var n int32
+	for j := 0; j < 3; j++ {
+		goP = &S{int32(i + j), "o" + itoa(j)}
+		goS = "s" + itoa(i+j)
+		goSl = append(goSl, int32(j))
+		n += goP.a + int32(len(goS)+len(goSl))
+	}
+	goP = nil
+	goS = ""
+	goSl = nil
+	return n
+'''),
+}
+LOOP_BODIES.update(LOOP_BODIES7)
+
+# bodies whose allocation shapes do not depend on the iteration number: run in their own programs (burst_programs)
+BURST_BODIES = {}
+for _n in (60, 100, 300):
+    BURST_BODIES["list_burst_%d" % _n] = ('''
+type NodeB%d struct {
+	val  int32
+	next *NodeB%d
+}
+''' % (_n, _n), '''
+	var head *NodeB%d
+	for j := 0; j < %d; j++ {
+		head = &NodeB%d{val: int32(j), next: head}
+	}
+	return head.val
+''' % (_n, _n, _n))
+BURST_BODIES["map_burst_120"] = ("", '''
+	m := map[int32]int32{}
+	for j := 0; j < 120; j++ {
+		m[int32(j)] = int32(j + i)
+	}
+	return int32(len(m))
+''')
+BURST_BODIES["ptr_slice_burst_100"] = ('''
+type PtrsB []*S
+''', '''
+	ps := make(PtrsB, 0, 100)
+	for j := 0; j < 100; j++ {
+		ps = append(ps, &S{int32(j), ""})
+	}
+	return ps[99].a
+''')
+BURST_BODIES["string_slice_burst_150"] = ("", '''
+	ss := make([]string, 0, 150)
+	for j := 0; j < 150; j++ {
+		ss = append(ss, digits[j%10:j%10+1]+"x")
+	}
+	return int32(len(ss[149]))
+''')
+BURST_BODIES["closure_burst_90"] = ('''
+type FnsB []func() int32
+
+func mkFnB(k int32) func() int32 {
+	return func() int32 { return k }
+}
+''', '''
+	fs := make(FnsB, 0, 90)
+	for j := 0; j < 90; j++ {
+		fs = append(fs, mkFnB(int32(j)))
+	}
+	return fs[89]()
+''')
+
+
+def burst_programs(n, per=2):
+    """[(name, src, [body names])] — shape-constant bodies (the body does not depend on i)"""
+    items = [(k,) + v for k, v in BURST_BODIES.items()]
+    out = []
+    for j in range(0, len(items), per):
+        part = items[j:j + per]
+        out.append(("bursts:%d" % (j // per), loop_program(part, n), [p[0] for p in part]))
+    return out
